@@ -36,7 +36,7 @@ class Profile:
 
 def expand(macro, t, k, rng):
     """A macro-op of thread t (its k-th) as concrete op text(s)."""
-    m = t * 100 + k + 1           # message tag
+    m = t * 30 + k + 1            # message tag (< 256: the 1-byte payload class carries it in a u8)
     f = t * 10 + k                # future id
     w = rng.choice([0, 1, 2])
     w2 = rng.choice([0, 1, 2])
@@ -77,6 +77,8 @@ def gen_program(profile, rng, idx):
             names, weights = zip(*profile.macros.items()) if isinstance(profile.macros, dict) else (profile.macros, None)
             macro = rng.choices(names, weights)[0]
             ops += expand(macro, t, k, rng)
+            if macro in ("drops", "dropr"):
+                break     # a thread that gave up a handle does not use that side again (it has no other handle)
         lines.append(f"t{t}: " + ";".join(ops))
     return "\n".join(lines) + "\n"
 
